@@ -8,8 +8,15 @@
     - the thread's name (padded by [FmtThreadName] to the longest name seen; the harness uses names of
       one width) and the text of [{:0>2?}] of its [ThreadId].
 
-    Pretty (multi-line by design) and JSON (C14) are not modelled at byte level; for them the buffer
-    and routing models run over opaque chunks. *)
+    Pretty is modelled at byte level too (second half of this file: [format_event_pretty], multi-line by
+    design, spans leaf -> root).  JSON is C14's model (Fmt/Json*.v); here the buffer and routing models
+    run over opaque chunks for it.
+
+    Options OUTSIDE the byte-level models: [with_ansi(true)] (escape sequences; the driver strips them),
+    real timers (any [FormatTime] is one opaque token, the harness's writes "TIME"), [with_source_location]
+    (left at its default [true]), the [tracing-log] metadata normalisation (feature off), custom
+    [FormatFields] / [FormatEvent] implementations, thread names of different widths (Full/Compact pad to
+    the longest name seen by the process). *)
 From Coq Require Import String Ascii.
 From TV Require Export Fmt.WriterModel Fmt.BufferModel.
 Local Open Scope N_scope.
@@ -39,7 +46,7 @@ Record thr := Thr { th_name : bytes; th_id : bytes }.
 
 (** A span in scope: its name and its field groups — the fields given at creation, then one group per
     later [record] call ([on_record] -> [add_fields] appends). *)
-Record span := Span { s_name : bytes; s_groups : list (list (bytes * bytes)) }.
+Record span := Span { s_name : bytes; s_groups : list (list (bytes * bytes)); s_target : bytes (* Pretty shows it *) }.
 
 (** An event reaching [on_event].  Its fields are visited in order; a field's [Debug] impl may emit
     another event before producing its text ([FNested]), may unwind after writing [pre] ([FPanic]) or
@@ -350,3 +357,188 @@ Definition clean_span (s : span) : bool := clean_b (s_name s) && forallb clean_f
 Definition inputs_nl_free (th : thr) (m : emeta) (sc : list span) (fs : list (bytes * bytes)) : bool :=
   clean_b (th_name th) && clean_b (th_id th) && clean_b (e_target m) && clean_o (e_file m) && clean_o (e_line m)
   && forallb clean_span sc && clean_fields fs.
+
+(** ** Span fields, field by field (specification side)
+
+    [span_fields] is what [on_new_span] + every later [on_record] leave in the span's [FormattedFields]:
+    as a token list it names every field of every group — the creation-time fields first, then each
+    recorded one, in order (RecordProofs.span_fields_names_every_field). *)
+Inductive ftok := FSep | FFld (first : bool) (n v : bytes).
+Definition render_ftok (t : ftok) : bytes :=
+  match t with FSep => [32] | FFld first n v => pad first ++ fld_head n ++ v end.
+Fixpoint group_ftoks (first : bool) (g : list (bytes * bytes)) : list ftok :=
+  match g with [] => [] | (n, v) :: r => FFld first n v :: group_ftoks false r end.
+Fixpoint groups_ftoks (cur : bytes) (gs : list (list (bytes * bytes))) : list ftok :=
+  match gs with
+  | [] => []
+  | g :: r => (match cur with [] => [] | _ => [FSep] end) ++ group_ftoks true g ++ groups_ftoks (add_group cur g) r
+  end.
+Definition ftok_fields (ts : list ftok) : list (bytes * bytes) :=
+  flat_map (fun t => match t with FFld _ n v => [(n, v)] | FSep => [] end) ts.
+
+(** The fields of a lifecycle record. *)
+Definition lifecycle_fields (k : lifecycle) (timing : bool) : list (bytes * bytes) :=
+  (str "message", lifecycle_msg k) ::
+  match k with LClose => if timing then [(str "time.busy", str "T"); (str "time.idle", str "T")] else [] | _ => [] end.
+
+(** ** Format<Pretty> (format/pretty.rs), ANSI off
+
+    {v
+      "  " [TIME " "] [LEVEL " "] [target ":"] [line ":" when the file is not shown] " " fields "\n"
+      ["    at " file [":" line] (" " | "\n")]  |  ["    " when only the thread is shown]
+      ["on " [name [" "]] [ThreadId(n)] "\n"]
+      for every span, LEAF FIRST:  "    in " [target "::"] name [" with " fields] "\n"
+      "\n"
+    v}
+    Fields go through [PrettyVisitor]: ", " between fields, [name: value], the message bare; the span's
+    fields were formatted by the same visitor ([fmt_fields = Pretty]); a later [record] is appended with
+    ", " when something is there already. *)
+Definition p_pad (first : bool) : bytes := if first then [] else str ", ".
+Definition p_head (n : bytes) : bytes := if is_message n then [] else strip_raw n ++ str ": ".
+
+Fixpoint p_render_flds (first : bool) (f : flds) : bytes * fstatus :=
+  match f with
+  | FNil => ([], SOk)
+  | FOk n v rest => let (b, s) := p_render_flds false rest in (p_pad first ++ p_head n ++ v ++ b, s)
+  | FNested n _ post rest => let (b, s) := p_render_flds false rest in (p_pad first ++ p_head n ++ post ++ b, s)
+  | FPanic n pre => (p_pad first ++ p_head n ++ pre, SPanic)
+  | FErr n pre => (p_pad first ++ p_head n ++ pre, SErr)
+  end.
+
+Fixpoint p_render_group (first : bool) (g : list (bytes * bytes)) : bytes :=
+  match g with
+  | [] => []
+  | (n, v) :: r => p_pad first ++ p_head n ++ v ++ p_render_group false r
+  end.
+
+Definition nilb (b : bytes) : bool := match b with [] => true | _ => false end.
+(* add_fields: let empty = current.is_empty(); PrettyVisitor::new(writer, empty) *)
+Definition p_add_group (cur : bytes) (g : list (bytes * bytes)) : bytes := cur ++ p_render_group (nilb cur) g.
+Definition p_span_fields (s : span) : bytes := fold_left p_add_group (s_groups s) [].
+
+Definition p_before (o : opts) (m : emeta) : bytes :=
+  str "  " ++
+  (if o_timer o then str "TIME " else []) ++
+  (if o_level o then level_str Full (e_level m) ++ [32] else []) ++
+  (if o_target o then e_target m ++ [58] else []) ++
+  (match shown_line o m with Some l => if o_file o then [] else l ++ [58] | None => [] end) ++ [32].
+
+Definition p_shown_file (o : opts) (m : emeta) : option bytes := if o_file o then e_file m else None.
+Definition p_thread (o : opts) : bool := o_tname o || o_tid o.
+
+Definition p_location (o : opts) (m : emeta) (th : thr) : bytes :=
+  (match p_shown_file o m with
+   | Some f => str "    at " ++ f ++ (match shown_line o m with Some l => [58] ++ l | None => [] end)
+               ++ (if p_thread o then [32] else [10])
+   | None => if p_thread o then str "    " else []
+   end) ++
+  (if p_thread o then
+     str "on " ++ (if o_tname o then th_name th ++ (if o_tid o then [32] else []) else [])
+     ++ (if o_tid o then th_id th else []) ++ [10]
+   else []).
+
+Definition p_span (o : opts) (s : span) : bytes :=
+  str "    in " ++ (if o_target o then s_target s ++ str "::" else []) ++ s_name s ++
+  (match p_span_fields s with [] => [] | fs => str " with " ++ fs end) ++ [10].
+
+Definition format_event_pretty (o : opts) (th : thr) (em : emission) : outcome N :=
+  match em with
+  | Em m sc fl =>
+      let (fb, st) := p_render_flds true fl in
+      let pre := p_before o m ++ fb in
+      match st with
+      | SOk => OOk (pre ++ [10] ++ p_location o m th ++ concat (map (p_span o) (rev sc)) ++ [10])
+      | SPanic => OPanic pre
+      | SErr => OErr pre (errline m)
+      end
+  end.
+
+(** Which spans Pretty walks.  Full, Compact (and JSON since 7519e35) ask [ctx.event_scope()] /
+    [ctx.parent_span()]: an explicit parent first, NOTHING for an explicit root, else the current span.
+    Pretty has its own lookup, [event.parent().and_then(|id| ctx.span(id)).or_else(|| ctx.lookup_current())]:
+    [Event::parent] is [None] for an explicit root too, so such an event is printed inside the thread's
+    current spans ([fallback = true]); [ctx.parent_span()] is the other form ([fallback = false]).  Which
+    one the tree has is read from pretty.rs on every run (TVGen.Gen_fmtbuf.pretty_root_falls_back). *)
+Definition pretty_scope (fallback is_root : bool) (event_scope current_scope : list span) : list span :=
+  if is_root && fallback then current_scope else event_scope.
+
+(** Emissions as buffer-model events, for any formatter function (Pretty uses this; [ev_of] above is the
+    Full / Compact instance, kept as it is). *)
+Fixpoint gev_of (fe : emission -> outcome N) (em : emission) : event N emeta :=
+  match em with
+  | Em m sc fl => Ev m (gnested_of fe fl) (fe em)
+  end
+with gnested_of (fe : emission -> outcome N) (fl : flds) : list (event N emeta) :=
+  match fl with
+  | FNil => []
+  | FOk _ _ r => gnested_of fe r
+  | FNested _ e _ r => gev_of fe e :: gnested_of fe r
+  | FPanic _ _ | FErr _ _ => []
+  end.
+
+Definition thread_events_pretty (o : opts) (sc : spancfg) (th : thr) (ops : list op) : list (event N emeta) :=
+  map (gev_of (format_event_pretty o th)) (flat_map (expand sc (o_timer o)) ops).
+
+(** Token view of a Pretty record. *)
+Inductive ptok :=
+| PStart | PTimer | PLevel (l : N) | PTarget (t : bytes) | PLineInline (l : bytes) | PGap
+| PField (first : bool) (n v : bytes)
+| PEol
+| PAt (file : bytes) (line : option bytes) (thread_follows : bool)
+| POnIndent
+| POn (name : option bytes) (sep : bool) (tid : option bytes)
+| PSpan (target : option bytes) (name fields : bytes)
+| PEnd.
+
+Definition render_ptok (t : ptok) : bytes :=
+  match t with
+  | PStart => str "  "
+  | PTimer => str "TIME "
+  | PLevel l => level_str Full l ++ [32]
+  | PTarget t => t ++ [58]
+  | PLineInline l => l ++ [58]
+  | PGap => [32]
+  | PField first n v => p_pad first ++ p_head n ++ v
+  | PEol => [10]
+  | PAt f l tf => str "    at " ++ f ++ (match l with Some l => [58] ++ l | None => [] end) ++ (if tf then [32] else [10])
+  | POnIndent => str "    "
+  | POn nm sep tid => str "on " ++ (match nm with Some n => n ++ (if sep then [32] else []) | None => [] end)
+                      ++ (match tid with Some t => t | None => [] end) ++ [10]
+  | PSpan tg n fs => str "    in " ++ (match tg with Some t => t ++ str "::" | None => [] end) ++ n
+                     ++ (match fs with [] => [] | _ => str " with " ++ fs end) ++ [10]
+  | PEnd => [10]
+  end.
+
+Definition popt (b : bool) (t : ptok) : list ptok := if b then [t] else [].
+
+Fixpoint pfield_toks (first : bool) (fs : list (bytes * bytes)) : list ptok :=
+  match fs with [] => [] | (n, v) :: r => PField first n v :: pfield_toks false r end.
+
+Definition pspan_tok (o : opts) (s : span) : ptok :=
+  PSpan (if o_target o then Some (s_target s) else None) (s_name s) (p_span_fields s).
+
+Definition ptokens_spec (o : opts) (th : thr) (m : emeta) (sc : list span) (fs : list (bytes * bytes)) : list ptok :=
+  [PStart] ++ popt (o_timer o) PTimer ++ popt (o_level o) (PLevel (e_level m)) ++ popt (o_target o) (PTarget (e_target m)) ++
+  (match shown_line o m with Some l => if o_file o then [] else [PLineInline l] | None => [] end) ++ [PGap] ++
+  pfield_toks true fs ++ [PEol] ++
+  (match p_shown_file o m with
+   | Some f => [PAt f (shown_line o m) (p_thread o)]
+   | None => popt (p_thread o) POnIndent
+   end) ++
+  popt (p_thread o) (POn (if o_tname o then Some (th_name th) else None) (o_tid o) (if o_tid o then Some (th_id th) else None)) ++
+  map (pspan_tok o) (rev sc) ++ [PEnd].
+
+Definition is_pspan_tok (t : ptok) : bool := match t with PSpan _ _ _ => true | _ => false end.
+Definition is_pfield_tok (t : ptok) : bool := match t with PField _ _ _ => true | _ => false end.
+
+(** Pretty's span fields, field by field. *)
+Inductive pftok := PFFld (first : bool) (n v : bytes).
+Definition render_pftok (t : pftok) : bytes := match t with PFFld first n v => p_pad first ++ p_head n ++ v end.
+Fixpoint p_group_ftoks (first : bool) (g : list (bytes * bytes)) : list pftok :=
+  match g with [] => [] | (n, v) :: r => PFFld first n v :: p_group_ftoks false r end.
+Fixpoint p_groups_ftoks (cur : bytes) (gs : list (list (bytes * bytes))) : list pftok :=
+  match gs with
+  | [] => []
+  | g :: r => p_group_ftoks (nilb cur) g ++ p_groups_ftoks (p_add_group cur g) r
+  end.
+Definition pftok_fields (ts : list pftok) : list (bytes * bytes) := map (fun t => match t with PFFld _ n v => (n, v) end) ts.
